@@ -2016,6 +2016,8 @@ class Recipe:
             A new Container so that it may be used in later recipe steps.
         """
 
+        if self.locked:
+            raise RuntimeError("This recipe is locked.")
         if not isinstance(solvent, (Substance, Container)):
             raise TypeError("Solvent must be a Substance or a Container.")
         if name is not None and not isinstance(name, str):
@@ -2077,6 +2079,8 @@ class Recipe:
             A new Container so that it may be used in later recipe steps.
         """
 
+        if self.locked:
+            raise RuntimeError("This recipe is locked.")
         if not isinstance(source, Container):
             raise TypeError("Source must be a Container.")
         if not isinstance(solute, Substance):
